@@ -178,6 +178,7 @@ class CSSRuleRules(CSSRule):
 
         for rule in cssRules:
             rule._parentRule = self
+            rule._parent = self
             rule._parentStyleSheet = None
 
         self._cssRules = cssRules
@@ -223,6 +224,7 @@ class CSSRuleRules(CSSRule):
         try:
             # detach
             self._cssRules[index]._parentRule = None
+            self._cssRules[index]._parent = None
             del self._cssRules[index]
 
         except IndexError as err:
@@ -274,6 +276,7 @@ class CSSRuleRules(CSSRule):
     def _finishInsertRule(self, rule, index):
         "add `rule` at `index`"
         rule._parentRule = self
+        rule._parent = self
         rule._parentStyleSheet = None
         self._cssRules.insert(index, rule)
         return index
